@@ -92,6 +92,51 @@ agree_arm!(c05_plugin_third, [V, P, U], [V, P]);
 /// only the sibling conftest defines f: no feature may offer it.
 agree_arm!(c05_sibling_only, [S, U], [S]);
 
+/// Lean variant of `agree` (the four-resolver cross-check of the import arms exceeds 10 GB): ONE call of the real
+/// `get_available_fixtures(U)` on a fully concrete world, compared with the reference lookup: the view has an entry for
+/// `f` iff pytest finds one from U, and it is that definition; never two entries.
+pub fn available_lean(w: World) {
+    assume(w.layout_ok());
+    note!("order={:?} defs={:?} imp_c1={}", w.order, w.defs.iter().map(|d| (d.file, d.line)).collect::<Vec<_>>(), w.imp_c1.on);
+    let db = build(&w, DEFS_ONLY);
+    let av = db.get_available_fixtures(Path::new(path(U)));
+    let n_f = av.iter().filter(|d| d.name == "f").count();
+    let got = av.iter().find(|d| d.name == "f").map(|d| (file_of(&d.file_path), d.line));
+    let want = spec::resolve(&w, U, "f", None).map(|i| (w.defs[i].file, w.defs[i].line));
+    note!("available f = {:?} (entries {}), reference lookup = {:?}", got, n_f, want);
+    check!("c05.lean.available_is_model", got == want);
+    check!("c05.lean.at_most_one_entry", n_f <= 1);
+    reach!("c05.lean.end");
+    std::mem::forget(av); std::mem::forget(db); std::mem::forget(w);
+}
+macro_rules! lean_arm {
+    ($id:ident, $body:expr) => {
+        #[cfg_attr(kani, kani::proof)]
+        #[cfg_attr(kani, kani::stub(std::path::Path::exists, crate::stubs::path_exists_false))]
+        #[cfg_attr(kani, kani::stub(std::path::Path::canonicalize, crate::stubs::canonicalize_err))]
+        #[cfg_attr(kani, kani::stub(std::hash::RandomState::new, crate::stubs::fixed_random_state))]
+        #[cfg_attr(kani, kani::stub(crate::fixtures::FixtureDatabase::is_fixture_imported_in_file, crate::world::stub_is_imported))]
+        #[cfg_attr(kani, kani::stub(crate::fixtures::FixtureDatabase::get_imported_fixtures, stub_get_imported))]
+        pub fn $id() { $body }
+    };
+}
+/// @harness id=c05_lean_near_import_vs_root_def props=C05,C18 tier=quick unwind=17 mem=10 cap=1500
+/// M (registered first) and the root conftest C0 define f; the nearer conftest C1 star-imports M: the per-file view of
+/// U must offer M's f (the import at the nearer level shadows the root's own definition).
+lean_arm!(c05_lean_near_import_vs_root_def, {
+    let mut w = World::new(&[M, C0, C1, U]);
+    w.def(M, "f", 4); w.def(C0, "f", 6);
+    w.imp_c1 = Imp { on: true, kind: 0 };
+    available_lean(w)
+});
+/// @harness id=c05_lean_root_def_no_import props=C05,C18 tier=thorough unwind=17 mem=10 cap=1500
+/// the same files without the import: the root's f.
+lean_arm!(c05_lean_root_def_no_import, {
+    let mut w = World::new(&[M, C0, C1, U]);
+    w.def(M, "f", 4); w.def(C0, "f", 6);
+    available_lean(w)
+});
+
 // ------------------------------------------------------------------------------------------------ C04
 /// references(D) contains usage u  <=>  go-to-definition on u lands on D; an unresolved usage is in no set;
 /// no usage twice. Go-to-definition on a recorded usage = the call sequence `find_fixture_definition` performs once
@@ -178,6 +223,66 @@ pos_arm!(c04_inv_usage_above_override, {
     inverse(w)
 });
 
+/// Lean variant of `inverse` (the full cross-check of every usage against every definition exceeds 12 GB): ONE call of
+/// the real `find_references_for_definition(D_k)` compared with the reference model — usage u is listed iff
+/// `spec::resolve` (pytest's lookup; the definition on u's own line excluded when it carries u's name) lands on D_k.
+pub fn refs_of(w: World, k: usize) {
+    assume(w.layout_ok());
+    let db = build(&w, WITH_USAGES);
+    let d = mk_def(&w.defs[k]);
+    let refs = db.find_references_for_definition(&d);
+    note!("refs({}:{}) = {:?}", path(w.defs[k].file), w.defs[k].line, refs.iter().map(|r| (file_of(&r.file_path), r.line, r.start_char)).collect::<Vec<_>>());
+    let mut n_want = 0usize;
+    for &f in &w.order {
+        for u in usages_of_file(&w, f) {
+            let excl = (0..w.defs.len()).find(|&i| w.defs[i].file == f && w.defs[i].line == u.line && w.defs[i].name == u.name.as_str());
+            let want = crate::spec::resolve(&w, f, u.name.as_str(), excl) == Some(k);
+            let listed = refs.iter().filter(|r| r.line == u.line && r.start_char == u.start_char && file_of(&r.file_path) == f).count();
+            note!("usage {}:{}:{} expected_listed={} listed={}", path(f), u.line, u.start_char, want, listed);
+            check!("c04.refs.listed_iff_model", (listed >= 1) == want);
+            check!("c04.refs.no_duplicate", listed <= 1);
+            if want { n_want += 1; }
+        }
+    }
+    check!("c04.refs.nothing_else", refs.len() == n_want);
+    reach!("c04.refs.end");
+    std::mem::forget(refs); std::mem::forget(d); std::mem::forget(db); std::mem::forget(w);
+}
+/// @harness id=c04_refs_parent_usage_above_override props=C04,C02 tier=thorough unwind=24 mem=10 cap=1500 gates=worlds
+/// U: a test using f sits ABOVE the override `def f(f)`; parent f in C0. References of the PARENT: exactly the
+/// override's own parameter (the test's parameter belongs to the override).
+pos_arm!(c04_refs_parent_usage_above_override, {
+    let mut w = World::new(&[C0, U]);
+    w.def(C0, "f", 4); let i = w.def(U, "f", 6); w.defs[i].deps = vec!["f"];
+    w.test(U, 3, &["f"]); w.tests[0].before_defs = true;
+    refs_of(w, 0)
+});
+/// @harness id=c04_refs_override_usage_above props=C04,C02 tier=thorough unwind=24 mem=10 cap=1500 gates=worlds
+/// the same world, references of the OVERRIDE: exactly the test's parameter above it.
+pos_arm!(c04_refs_override_usage_above, {
+    let mut w = World::new(&[C0, U]);
+    w.def(C0, "f", 4); let i = w.def(U, "f", 6); w.defs[i].deps = vec!["f"];
+    w.test(U, 3, &["f"]); w.tests[0].before_defs = true;
+    refs_of(w, 1)
+});
+/// @harness id=c04_refs_conftest_sibling_first props=C04,C08 tier=quick unwind=24 mem=10 cap=1500 gates=worlds
+/// C1 defines f; the sibling module M (same directory) uses the inherited f and is registered BEFORE U, which
+/// overrides f locally and uses its own. References of C1's f: exactly M's usage.
+pos_arm!(c04_refs_conftest_sibling_first, {
+    let mut w = World::new(&[C1, M, U]);
+    w.def(C1, "f", 4); w.def(U, "f", 6);
+    w.test(M, 8, &["f"]); w.test(U, 10, &["f"]);
+    refs_of(w, 0)
+});
+/// @harness id=c04_refs_local_sibling_first props=C04,C08 tier=thorough unwind=24 mem=10 cap=1500 gates=worlds
+/// the same world, references of U's local f: exactly U's own usage.
+pos_arm!(c04_refs_local_sibling_first, {
+    let mut w = World::new(&[C1, M, U]);
+    w.def(C1, "f", 4); w.def(U, "f", 6);
+    w.test(M, 8, &["f"]); w.test(U, 10, &["f"]);
+    refs_of(w, 1)
+});
+
 // ------------------------------------------------------------------------------------------------ C20
 /// `get_unused_fixtures` lists D  <=>  D is not third-party, not autouse, and no usage resolves to it
 /// (find_references_for_definition(D) is empty); the list is sorted.
@@ -217,6 +322,49 @@ macro_rules! cli_arm {
         pub fn $id() { $body }
     };
 }
+/// Lean variant of `unused` (one call of the real `get_unused_fixtures`, expectation from the reference lookup):
+/// D is listed iff it is not third-party, not autouse and no usage resolves to it. Worlds without two definitions of one
+/// name in one file (that is the recorded finding C20_COUNTS_KEYED_BY_FILE_AND_NAME, probed by `unused`).
+pub fn unused_lean(w: World) {
+    assume(w.layout_ok());
+    let db = build(&w, WITH_USAGES);
+    let un = db.get_unused_fixtures();
+    note!("defs={:?} unused={:?}", w.defs.iter().map(|d| (d.file, d.name, d.line)).collect::<Vec<_>>(), un);
+    let mut n_want = 0usize;
+    for k in 0..w.defs.len() {
+        let mut used = false;
+        for &f in &w.order {
+            for u in usages_of_file(&w, f) {
+                let excl = (0..w.defs.len()).find(|&i| w.defs[i].file == f && w.defs[i].line == u.line && w.defs[i].name == u.name.as_str());
+                if crate::spec::resolve(&w, f, u.name.as_str(), excl) == Some(k) { used = true; }
+            }
+        }
+        let want = w.defs[k].file != V && !w.defs[k].autouse && !used;
+        let listed = un.iter().filter(|(p, n)| file_of(p) == w.defs[k].file && n.as_str() == w.defs[k].name).count();
+        check!("c20.lean.listed_iff_model", (listed >= 1) == want);
+        check!("c20.lean.listed_once", listed <= 1);
+        if want { n_want += 1; }
+    }
+    check!("c20.lean.nothing_else", un.len() == n_want);
+    reach!("c20.lean.end");
+    std::mem::forget(un); std::mem::forget(db); std::mem::forget(w);
+}
+/// @harness id=c20_lean_usage_above_override props=C20,C04 tier=thorough unwind=17 mem=10 cap=1500
+/// U: test(f) above the override `def f(f)`; parent f in C0: both are used exactly once, none is unused.
+cli_arm!(c20_lean_usage_above_override, {
+    let mut w = World::new(&[C0, U]);
+    w.def(C0, "f", 4); let i = w.def(U, "f", 6); w.defs[i].deps = vec!["f"];
+    w.test(U, 3, &["f"]); w.tests[0].before_defs = true;
+    unused_lean(w)
+});
+/// @harness id=c20_lean_shadowed_parent_unused props=C20,C04 tier=quick unwind=17 mem=10 cap=1500
+/// U overrides f WITHOUT requesting the parent and uses its own f: the parent in C0 is unused, the override is not.
+cli_arm!(c20_lean_shadowed_parent_unused, {
+    let mut w = World::new(&[C0, U]);
+    w.def(C0, "f", 4); w.def(U, "f", 6);
+    w.test(U, 9, &["f"]);
+    unused_lean(w)
+});
 /// @harness id=c20_unused_basic props=C20,C04 tier=thorough unwind=17 mem=14 cap=2400 unwindset=find_inner:3
 /// C0: f (autouse symbolic), g (autouse symbolic); U: test(f). f used, g unused unless autouse.
 cli_arm!(c20_unused_basic, {
